@@ -92,8 +92,12 @@ let expected_env_string (o : topts) (gi : z geomT) (len : int) : string =
   match i.i_bbox with
   | None -> "0"
   | Some l ->
+    (* the header stores min and delta = max - min in int64 arithmetic: when max - min exceeds
+       2^63 the stored delta has wrapped and min + delta wraps back (Base/Varint.v wrap64_delta) *)
     let rec pairs = function
-      | mn :: dl :: r -> (mn, Z.add mn dl) :: pairs r
+      | mn :: dl :: r ->
+        (match dl with Zneg _ -> count "bbox_delta_wrapped" | _ -> ());
+        (mn, wrap64 (Z.add mn dl)) :: pairs r
       | _ -> [] in
     let ct = geom_ct gi in
     env_string ideal_dequant o.o_pxy (eff_prec o o.o_pz (ct_has_z ct)) (eff_prec o o.o_pm (ct_has_m ct)) ct (pairs l)
